@@ -375,6 +375,11 @@ macro_rules! impl_into_value {
                 Corp::to_value(&v)
             }
         }
+        impl From<Value> for $t {
+            fn from(v: Value) -> $t {
+                apache_avro::from_value::<$t>(&v).expect("from_value of a decoded corpus value")
+            }
+        }
     )*};
 }
 impl_into_value!(Flat, Nested, WithOpt, WithMap, WithEnum, Deep, Empty, Nums);
